@@ -486,6 +486,28 @@ func xlateTie(r *Result, mainPool *DriverPool, rng *rand.Rand, n int) error {
 			return err
 		}
 	}
-	r.Add("xlate_fn_requests", 400*10)
+	for c := 0; c < 256; c++ {
+		vf := "errInvalidFlags"
+		if xz.VerifVerifyFlags(byte(c)) {
+			vf = "nil"
+		}
+		if err := ask(fmt.Sprintf("gosrc fn verifyflags %d", c), vf); err != nil {
+			return err
+		}
+		p, perr := lzma.PropertiesForCode(byte(c))
+		want := fmt.Sprintf("%d %d %d nil", p.LC, p.LP, p.PB)
+		if perr != nil {
+			want = fmt.Sprintf("%d %d %d new:%s", p.LC, p.LP, p.PB, perr.Error())
+		}
+		if err := ask(fmt.Sprintf("gosrc fn propsforcode %d", c), want); err != nil {
+			return err
+		}
+		if perr == nil {
+			if err := ask(fmt.Sprintf("gosrc fn propscode %d %d %d", p.LC, p.LP, p.PB), fmt.Sprint(p.Code())); err != nil {
+				return err
+			}
+		}
+	}
+	r.Add("xlate_fn_requests", 400*10+256*3)
 	return nil
 }
